@@ -1,8 +1,13 @@
 // ---- trusted model: frames as a vector, the current-frame pointer as an index (A-fiber) ------------------------------------------------------------------
 #[derive(Clone, Copy)] pub struct FunRef { pub id: int }
+pub uninterp spec fn fun_max_slots(f: FunRef) -> usize;
+impl FunRef { #[verifier::external_body] pub fn max_slots(&self) -> (r: usize) ensures r == fun_max_slots(*self) { unimplemented!() } }
+impl Ptr { #[verifier::external_body] pub fn sub(self, n: usize) -> (r: Ptr) requires isize::MIN <= self.off - n ensures r.off == self.off - n { unimplemented!() } }
 #[derive(Clone, Copy)] pub struct Ptr { pub off: isize }
-#[derive(Clone, Copy)] pub struct CallFrame { pub fun: FunRef, pub stack_start: Ptr }
+#[derive(Clone, Copy)] pub struct Captures { pub id: int }
+#[derive(Clone, Copy)] pub struct CallFrame { pub fun: FunRef, pub captures: Captures, pub stack_start: Ptr }
 impl CallFrame {
+  pub fn new(fun: FunRef, captures: Captures, stack_start: Ptr) -> (r: CallFrame) ensures r.fun == fun, r.captures == captures, r.stack_start == stack_start { CallFrame { fun, captures, stack_start } }
   pub fn fun(&self) -> (r: FunRef) ensures r == self.fun { self.fun }
   pub fn stack_start(&self) -> (r: Ptr) ensures r == self.stack_start { self.stack_start }
 }
@@ -11,17 +16,25 @@ pub enum FiberPopResult { Ok(FunRef), Emptied, Empty }
 #[derive(Clone, Copy)] pub struct FramePtr { pub idx: Option<usize> }
 impl FramePtr {
   pub fn null() -> (r: FramePtr) ensures r.idx is None { FramePtr { idx: None } }
+  #[verifier::external_body] pub fn add(self, n: usize) -> (r: FramePtr) requires self.idx is Some, self.idx.unwrap() + n <= usize::MAX ensures r.idx == Some((self.idx.unwrap() + n) as usize) { unimplemented!() }
   #[verifier::external_body] pub fn offset(self, n: isize) -> (r: FramePtr) requires self.idx is Some, 0 <= self.idx.unwrap() + n ensures r.idx == Some((self.idx.unwrap() + n) as usize) { unimplemented!() }
 }
 pub struct Frames { pub v: Vec<CallFrame> }
 impl Frames {
   pub fn len(&self) -> (r: usize) ensures r == self.v@.len() { self.v.len() }
+  pub fn push(&mut self, f: CallFrame) ensures final(self).v@ == old(self).v@.push(f) { self.v.push(f); }
+  /// the pointer to the first frame
+  #[verifier::external_body] pub fn as_mut_ptr(&mut self) -> (r: FramePtr) ensures r.idx == Some(0usize), final(self).v == old(self).v { unimplemented!() }
   pub fn pop(&mut self) -> (r: Option<CallFrame>) ensures old(self).v@.len() > 0 ==> final(self).v@ == old(self).v@.drop_last(), old(self).v@.len() == 0 ==> final(self).v@ == old(self).v@ { self.v.pop() }
 }
-pub struct Fiber { pub frames: Frames, pub frame: FramePtr, pub stack_top: Ptr }
+pub struct Fiber { pub frames: Frames, pub frame: FramePtr, pub stack_top: Ptr, pub reserved: Ghost<int> }
 /// the current-frame pointer points at the top frame
 pub open spec fn frames_wf(f: &Fiber) -> bool { if f.frames.v@.len() == 0 { f.frame.idx is None } else { f.frame.idx == Some((f.frames.v@.len() - 1) as usize) } }
 impl Fiber {
   /// `&*self.frame`
   #[verifier::external_body] pub fn frame(&self) -> (r: &CallFrame) requires self.frame.idx is Some, self.frame.idx.unwrap() < self.frames.v@.len() ensures *r == self.frames.v@[self.frame.idx.unwrap() as int] { unimplemented!() }
+  /// room for `additional` more slots above the top; offsets into the stack keep their meaning (the real one relocates every pointer)
+  #[verifier::external_body] pub fn ensure_stack(&mut self, additional: usize)
+    ensures final(self).frames == old(self).frames, final(self).frame == old(self).frame, final(self).stack_top == old(self).stack_top,
+      final(self).reserved@ >= old(self).stack_top.off + additional { unimplemented!() }
 }
